@@ -55,6 +55,10 @@ func HashName(label string, ha uint8, iter uint16, salt string) string {
 // Cover returns true if a name is covered by the NSEC3 record.
 func (rr *NSEC3) Cover(name string) bool {
 	nameHash := HashName(name, rr.Hash, rr.Iterations, rr.Salt)
+	if nameHash == "" {
+		// No hash (unknown hash algorithm, bad salt, bad name): nothing to compare.
+		return false
+	}
 	// Only the hash label is put in upper case (base32hex): IsSubDomain folds
 	// the ASCII letters itself, strings.ToUpper would rewrite raw octets >= 0x80
 	// of the zone name as well.
